@@ -286,7 +286,108 @@ fn classify(payload: Box<dyn std::any::Any + Send>) -> String {
     }
 }
 
+/// A transparent wrapper that snapshots the recorded schedule of each finished execution.
+struct IterRecorder<S: Scheduler> {
+    inner: S,
+    started: bool,
+}
+
+thread_local! {
+    static ITERS: RefCell<Vec<String>> = const { RefCell::new(Vec::new()) };
+}
+
+fn show_schedule(recorded: &Schedule) -> String {
+    recorded
+        .steps
+        .iter()
+        .map(|s| match s {
+            ScheduleStep::Task(t) => format!("t{}", usize::from(*t)),
+            ScheduleStep::Random => "r".to_string(),
+        })
+        .collect::<Vec<_>>()
+        .join(",")
+}
+
+impl<S: Scheduler> Scheduler for IterRecorder<S> {
+    fn new_execution(&mut self) -> Option<Schedule> {
+        if self.started {
+            let sch = CurrentSchedule::get_schedule();
+            ITERS.with(|l| l.borrow_mut().push(format!("S={}:T=ok", show_schedule(&sch))));
+        }
+        self.started = true;
+        self.inner.new_execution()
+    }
+    fn next_task(&mut self, runnable: &[&Task], current: Option<TaskId>, is_yielding: bool) -> Option<TaskId> {
+        let c = self.inner.next_task(runnable, current, is_yielding);
+        log(format!("D>{}", c.map(|c| usize::from(c).to_string()).unwrap_or("x".into())));
+        c
+    }
+    fn next_u64(&mut self) -> u64 {
+        self.inner.next_u64()
+    }
+}
+
+fn parse_config(ms: &str) -> Option<Config> {
+    let mut config = Config::new();
+    config.failure_persistence = FailurePersistence::None;
+    config.max_steps = match ms.split(':').collect::<Vec<_>>()[..] {
+        ["none"] => MaxSteps::None,
+        ["fail", n] => MaxSteps::FailAfter(n.parse().unwrap()),
+        ["cont", n] => MaxSteps::ContinueAfter(n.parse().unwrap()),
+        _ => return None,
+    };
+    Some(config)
+}
+
+fn parse_prog(objs: &str, bodies: &str) -> Arc<Prog> {
+    Arc::new(Prog {
+        bodies: bodies
+            .split('|')
+            .map(|b| crate::split_list(b, ';').iter().map(|w| parse_op(w)).collect())
+            .collect(),
+        obj_specs: crate::split_list(objs, ',').iter().map(|s| s.to_string()).collect(),
+    })
+}
+
+/// progdfs <ms> <maxiter|-> <objs> <bodies>: the real DfsScheduler under the real Runner
+pub fn run_dfs(words: &[&str]) -> String {
+    let [_, ms, mi, objs, bodies] = words else {
+        return "ERR bad case".to_string();
+    };
+    let Some(config) = parse_config(ms) else { return "ERR bad max_steps".to_string() };
+    let cap = 3000usize;
+    let mi: usize = if *mi == "-" { cap } else { mi.parse::<usize>().unwrap().min(cap) };
+    let prog = parse_prog(objs, bodies);
+    let sched = IterRecorder {
+        inner: shuttle_schedulers::DfsScheduler::new(Some(mi), false),
+        started: false,
+    };
+    LOG.with(|l| l.borrow_mut().clear());
+    ITERS.with(|l| l.borrow_mut().clear());
+    let p2 = prog.clone();
+    let res = catch_unwind(AssertUnwindSafe(|| {
+        Runner::new(sched, config).run(move || {
+            let objs = Arc::new(make_objs(&p2.obj_specs));
+            run_body(p2.clone(), objs, 0);
+        })
+    }));
+    let last = CurrentSchedule::get_schedule();
+    let n = match res {
+        // the final new_execution call (which answered None) already recorded the last execution
+        Ok(n) => n,
+        Err(p) => {
+            ITERS.with(|l| l.borrow_mut().push(format!("S={}:T={}", show_schedule(&last), classify(p))));
+            usize::MAX
+        }
+    };
+    let iters = ITERS.with(|l| l.borrow().join(" | "));
+    format!("N={} {}", if n == usize::MAX { "fail".to_string() } else { n.to_string() }, iters)
+}
+
 pub fn run(words: &[&str]) -> String {
+    if words.first() == Some(&"progdfs") {
+        return run_dfs(words);
+    }
     let [_, ms, script, rseed, objs, bodies] = words else {
         return "ERR bad case".to_string();
     };
